@@ -26,13 +26,17 @@ Definition test_of (t : ftab1) : option (str -> bool) :=
 Definition filters_of (t : ftab) : filters :=
   {| f_field := test_of (t_field t); f_token := test_of (t_token t); f_ft := test_of (t_ft t) |}.
 
-Record cblock := { cb_meta : blockmeta; cb_filters : ftab; cb_rows : list srow }.
+Record cblock := { cb_meta : blockmeta; cb_filters : ftab; cb_section : bool; cb_rows : list srow }.
 Record cfile := { cf_filters : ftab; cf_blocks : list cblock }.
 
 Definition block_of (b : cblock) : block :=
-  {| bk_meta := cb_meta b; bk_filters := filters_of (cb_filters b); bk_rows := cb_rows b |}.
+  {| bk_meta := cb_meta b; bk_filters := filters_of (cb_filters b); bk_section := cb_section b; bk_rows := cb_rows b |}.
 Definition file_of (f : cfile) : file :=
   {| fl_filters := filters_of (cf_filters f); fl_blocks := map block_of (cf_blocks f) |}.
+
+(* what the instrumented DataStore saw during one query: files opened, (file, block) pairs whose
+   row-data extent was read, files whose block filter region was read; indexes into [files] *)
+Record readobs := { ro_opened : list Z; ro_rows : list (Z * Z); ro_region : list Z }.
 
 Inductive caseR :=
 | CWalk (row : json) (obs : list em)                                           (* pathWalker emissions, in order *)
@@ -41,7 +45,8 @@ Inductive caseR :=
          (obs refobs : bool)                                                    (* matchRowBytes, set-based reference *)
 | CGuard (qb : option bexpr) (qr : option rexpr) (obs : option bexpr)          (* the pruning query Query builds *)
 | CPrune (F : ftab) (q : option bexpr) (obs : bool)                            (* evaluateBloomFilters on real filters *)
-| CQuery (tok : toktab) (re : retab) (files : list cfile) (q : query) (obs : list Z). (* ids Query returned *)
+| CQuery (tok : toktab) (re : retab) (files : list cfile) (q : query) (obs : list Z)  (* ids Query returned *)
+         (reads : option readobs).                                              (* DataStore activity of the query *)
 
 (* ---- equality tests ---- *)
 Definition leaf_eqb (a b : leaf) : bool :=
@@ -106,6 +111,17 @@ Definition zcount (x : Z) (l : list Z) : nat := length (filter (Z.eqb x) l).
 Definition zperm_eqb (a b : list Z) : bool :=
   Nat.eqb (length a) (length b) && forallb (fun x => Nat.eqb (zcount x a) (zcount x b)) a.
 
+Fixpoint enum_from {A} (i : Z) (l : list A) : list (Z * A) :=
+  match l with [] => [] | x :: t => (i, x) :: enum_from (i + 1)%Z t end.
+Definition enum {A} (l : list A) : list (Z * A) := enum_from 0%Z l.
+Definition idx_where {A} (p : A -> bool) (l : list A) : list Z := map fst (filter (fun ix => p (snd ix)) (enum l)).
+Definition zmem (x : Z) (l : list Z) : bool := existsb (Z.eqb x) l.
+Definition zset_eqb (a b : list Z) : bool := forallb (fun x => zmem x b) a && forallb (fun x => zmem x a) b.
+Definition pair_eqb (a b : Z * Z) : bool := Z.eqb (fst a) (fst b) && Z.eqb (snd a) (snd b).
+Definition pmem (x : Z * Z) (l : list (Z * Z)) : bool := existsb (pair_eqb x) l.
+Definition pairset_eqb (a b : list (Z * Z)) : bool := forallb (fun x => pmem x b) a && forallb (fun x => pmem x a) b.
+Definition nthZ {A} (l : list A) (i : Z) : option A := nth_error l (Z.to_nat i).
+
 (* ---- model side ---- *)
 Definition model_match (row : json) tok re qb qr : bool := row_sat (tok_of tok) (re_of re) qb qr row.
 
@@ -126,7 +142,17 @@ Definition mismatch (c : caseR) : bool :=
       let m := model_match row tok re qb qr in negb (eqb m obs) || negb (eqb m refobs)
   | CGuard qb qr obs => negb (obexpr_eqb (prune_query qb qr) obs)
   | CPrune F q obs => negb (eqb (prune_q (filters_of F) q) obs)
-  | CQuery tok re files q obs => negb (zperm_eqb (model_ids tok re files q) obs)
+  | CQuery tok re files q obs reads =>
+      negb (zperm_eqb (model_ids tok re files q) obs)
+      || match reads with
+         | None => false
+         | Some ro =>
+             let fs := map file_of files in
+             negb (zset_eqb (idx_where (opens_file q) fs) (ro_opened ro)
+                   && zset_eqb (idx_where (reads_region q) fs) (ro_region ro)
+                   && pairset_eqb (flat_map (fun jf => map (fun i => (fst jf, i)) (idx_where (reads_rows q (snd jf)) (fl_blocks (snd jf)))) (enum fs))
+                                  (ro_rows ro))
+         end
   end.
 
 (* C01: a stored row that matches (and whose own partition / indexed values satisfy the
@@ -134,7 +160,7 @@ Definition mismatch (c : caseR) : bool :=
 Definition violates_c01 (c : caseR) : bool :=
   match c with
   | CMatch row tok re qb qr obs _ => model_match row tok re qb qr && negb obs
-  | CQuery tok re files q obs =>
+  | CQuery tok re files q obs _ =>
       existsb (fun r => row_matches (tok_of tok) (re_of re) q r && row_pre q r
                         && Nat.ltb (zcount (sr_id r) obs) (zcount (sr_id r) (map sr_id (stored_rows files))))
               (stored_rows files)
@@ -146,7 +172,7 @@ Definition violates_c01 (c : caseR) : bool :=
 Definition violates_c02 (c : caseR) : bool :=
   match c with
   | CMatch row tok re qb qr obs _ => negb (model_match row tok re qb qr) && obs
-  | CQuery tok re files q obs =>
+  | CQuery tok re files q obs _ =>
       let stored := stored_rows files in
       existsb (fun id =>
         negb (existsb (fun r => Z.eqb (sr_id r) id && row_matches (tok_of tok) (re_of re) q r) stored)
@@ -175,10 +201,29 @@ Definition ftab_covers (tok : toktab) (t : ftab) (rows : list srow) : bool :=
 
 Definition violates_c18 (c : caseR) : bool :=
   match c with
-  | CQuery tok _ files _ _ =>
+  | CQuery tok _ files _ _ _ =>
       negb (forallb (fun f =>
         ftab_covers tok (cf_filters f) (flat_map cb_rows (cf_blocks f))
         && forallb (fun b => ftab_covers tok (cb_filters b) (cb_rows b)) (cf_blocks f)) files)
+  | _ => false
+  end.
+
+(* C24: a file was opened although its file-level filters rule the query out; row data of a block
+   was read although its prefilter or its block filters rule it out; a block filter region was read
+   although the query has no bloom or regex conditions *)
+Definition violates_c24 (c : caseR) : bool :=
+  match c with
+  | CQuery _ _ files q _ (Some ro) =>
+      let fs := map file_of files in
+      existsb (fun i => match nthZ fs i with
+                        | Some f => negb (prune_q (fl_filters f) (pq q))
+                        | None => true end) (ro_opened ro)
+      || existsb (fun ib => match nthZ fs (fst ib) with
+                            | Some f => match nthZ (fl_blocks f) (snd ib) with
+                                        | Some b => negb (block_passes (q_pre q) (bk_meta b)) || negb (prune_q (bk_filters b) (pq q))
+                                        | None => true end
+                            | None => true end) (ro_rows ro)
+      || (match pq q with None => true | Some _ => false end && negb (match ro_region ro with [] => true | _ => false end))
   | _ => false
   end.
 
@@ -192,4 +237,5 @@ Definition mismatches (cs : list caseR) : list nat := indices_where mismatch cs 
 Definition violations_c01 (cs : list caseR) : list nat := indices_where violates_c01 cs 0.
 Definition violations_c02 (cs : list caseR) : list nat := indices_where violates_c02 cs 0.
 Definition violations_c18 (cs : list caseR) : list nat := indices_where violates_c18 cs 0.
+Definition violations_c24 (cs : list caseR) : list nat := indices_where violates_c24 cs 0.
 Definition violations_none (cs : list caseR) : list nat := [].
